@@ -32,7 +32,27 @@ SWAPS = [
 ]
 
 
+def deletions(src):
+    """statement deletion: every line that is one simple statement is replaced by an empty line"""
+    out = []
+    depth = 0
+    for ln, line in enumerate(src.split("\n")):
+        s = line.strip()
+        d0 = depth
+        depth += line.count("{") - line.count("}")
+        if d0 < 1 or not line.startswith("\t") or not s or s.startswith("//"):
+            continue
+        if s.endswith("{") or s.startswith("}") or s.endswith(",") or s.endswith("(") or s.startswith("case ") or s.startswith("default:") or s.startswith("return") or s.startswith("var ") or s.startswith("panic(") or ":=" in s or s.startswith("break") or s.startswith("continue") or s.startswith("go "):
+            continue
+        if s.count("(") != s.count(")") or s.count("{") != s.count("}"):
+            continue
+        out.append((ln, line, ""))
+    return out
+
+
 def mutants(src):
+    if os.environ.get("MUT_MODE") == "delete":
+        return deletions(src)
     out = []
     lines = src.split("\n")
     in_block = False
